@@ -11,6 +11,7 @@ abbrev Key := List Char
 inductive Ev where
   | arr (key : Key) (id : Nat) (ts : Option Int)
   | emit (late : Bool) (key : Key) (start stop : Int) (ids : List Nat)
+  | forced (key : Key) (start stop : Int) (ids : List Nat)   -- delivered by a manual flush (`TriggerWindow`): every clause but the watermark one
   deriving Repr, DecidableEq
 
 structure Cfg where
@@ -62,7 +63,7 @@ def gapsOk (timeout : Int) : List Int → Bool
 
 def emittedIds (s : Scan) : List Nat := s.firsts.flatMap (fun f => f.2.2.2)
 
-def checkFirst (c : Cfg) (s : Scan) (k : Key) (start stop : Int) (ids : List Nat) : Scan :=
+def checkFirst (c : Cfg) (s : Scan) (k : Key) (start stop : Int) (ids : List Nat) (forced : Bool := false) : Scan :=
   let rows := ids.filterMap (lookup s)
   let s1 := if rows.length = ids.length && ids.length > 0 then s else fail s "unknown-or-no-row-in-session"
   let s2 := if rows.all (fun r => r.key == k) then s1 else fail s1 "row-of-another-key"
@@ -74,7 +75,7 @@ def checkFirst (c : Cfg) (s : Scan) (k : Key) (start stop : Int) (ids : List Nat
               let a := if start = lo then s4 else fail s4 "window_start-not-earliest"
               if stop = hi + c.timeout then a else fail a "window_end-not-latest-plus-timeout"
             | _, _ => s4
-  let s6 := match wmOf c s with
+  let s6 := if forced then s5 else match wmOf c s with
             | some w => if stop ≤ w then s5 else fail s5 "session-delivered-before-watermark"
             | none => fail s5 "session-delivered-before-watermark"
   -- maximal: no on-time, not yet delivered row of the key strictly inside the session's reach
@@ -107,6 +108,7 @@ def step (c : Cfg) (s : Scan) : Ev → Scan
   | .arr _ _ none => s
   | .arr k id (some ts) => stepArr c s k id ts
   | .emit false k a b ids => checkFirst c s k a b ids
+  | .forced k a b ids => checkFirst c s k a b ids true
   | .emit true k a b ids => checkLate c s k a b ids
 
 def scan (c : Cfg) (evs : List Ev) : Scan := evs.foldl (step c) {}
